@@ -532,7 +532,7 @@ open NotationCore Revocation Props
 
 /-! ### C12 — complete, positional, consistent -/
 def ocspShapeB (urls : List Url) (res : Result) (os : List ServerResult) : Bool :=
-  (os.length == 1 && os.all (fun s => res == s.result && urls.contains s.server)) ||
+  (os.length == 1 && os.all (fun s => res == s.result && urls.contains s.server && Ocsp.decisive s)) ||
   (res == .unknown && os.map (·.server) == urls && os.all (fun s => s.result == .unknown))
 
 def crlShapeB (dps : List Url) (res : Result) (ks : List ServerResult) : Bool :=
@@ -542,8 +542,8 @@ def crlShapeB (dps : List Url) (res : Result) (ks : List ServerResult) : Bool :=
 theorem ocspShapeB_of {urls : List Url} {res : Result} {os : List ServerResult} (h : OcspShape urls res os) :
     ocspShapeB urls res os = true := by
   unfold ocspShapeB
-  rcases h with ⟨s, h1, h2, h3⟩ | ⟨h1, h2, h3⟩
-  · subst h1; simp [h2, h3]
+  rcases h with ⟨s, h1, h2, h3, h4⟩ | ⟨h1, h2, h3⟩
+  · subst h1; simp [h2, h3, h4]
   · subst h1
     simp only [beq_self_eq_true, h2, Bool.true_and, Bool.or_eq_true, List.all_eq_true, beq_iff_eq]
     right; exact h3
